@@ -1,10 +1,14 @@
 #!/bin/bash
-# tools/try_seed.sh <seed-name> <check id> [tier]  : apply seeded patch to /repo, run the check, undo.
+# tools/try_seed.sh <seed-name> <check-id>...   apply the seeded patch to /repo, run the quick checks, undo it.
 set -u
-NAME="$1"; ID="$2"; TIER="${3:-quick}"
-cd /verif
-git -C /repo apply "/verif/seeded/$NAME/patch.diff" || { echo "patch does not apply"; exit 3; }
-timeout 1200 ./check "$ID" --tier "$TIER" > "/tmp/try_${NAME}_${ID}.log" 2>&1; RC=$?
-git -C /repo checkout -- .
-grep -E 'VIOLATION|KNOWN-FINDING|ERROR|^\[' "/tmp/try_${NAME}_${ID}.log" | head -8
-echo "seed=$NAME check=$ID exit=$RC"
+NAME="$1"; shift
+P=/verif/seeded/$NAME/patch.diff
+[ -z "$(git -C /repo status --porcelain --untracked-files=no)" ] || { echo "/repo not clean"; exit 3; }
+BK=$(mktemp -d /tmp/evbk.XXXXXX); cp -r /verif/evidence "$BK/"
+git -C /repo apply "$P" || exit 4
+trap 'git -C /repo checkout -- . ; rm -rf /verif/evidence; cp -r "$BK/evidence" /verif/evidence; rm -rf "$BK"' EXIT
+for C in "$@"; do
+  SEED=${VERIF_SEED:-0}
+  ( cd /verif && VERIF_SEED=$SEED ./check $C --tier ${TIER:-quick} > /tmp/try_${NAME}_$C.log 2>&1 ); RC=$?
+  echo "seed=$NAME check=$C rc=$RC :: $(grep -E 'VIOLATION|KNOWN-FINDING|ERROR' /tmp/try_${NAME}_$C.log | head -3 | tr '\n' ' ') $(tail -1 /tmp/try_${NAME}_$C.log)"
+done
